@@ -194,8 +194,7 @@ func (t c18SStreamable) StreamableRun(ctx context.Context, args string, opts ...
 	if err != nil {
 		return nil, err
 	}
-	h := len(s) / 2
-	return schema.StreamReaderFromArray([]string{s[:h], s[h:]}), nil
+	return c18ToolStream(ctx, s, t.t.Lazy), nil
 }
 
 func c18SParts(c *c18Case) *c18Parts {
